@@ -45,6 +45,9 @@ type Knobs struct {
 	BusListener     bool   `json:"bus_listener"`      // real bus.LedgerListener over a recording publisher
 	HashLogs        string `json:"hash_logs"`         // SYNC / DISABLED
 	Bucket2         bool   `json:"bucket2,omitempty"` // second ledger lives in another bucket
+	// RealSQL: the data methods of internal/storage/ledger run for real and their SQL is interpreted by
+	// sqlmini; false = they are served by the simpg contract model (DESIGN.md section 15)
+	RealSQL bool `json:"real_sql,omitempty"`
 }
 
 type Incarnation struct {
@@ -204,7 +207,7 @@ func (w *World) NewIncarnation(k Knobs, listener ledgercontroller.Listener, repl
 	w.mu.Unlock()
 	inc := &Incarnation{w: w, epoch: epoch, crashed: make(chan struct{}), knobs: k, repl: repl}
 	inc.sqlDB = sql.OpenDB(&Connector{w: w, epoch: epoch})
-	inc.bunDB = bun.NewDB(inc.sqlDB, pgdialect.New())
+	inc.bunDB = bun.NewDB(inc.sqlDB, pgdialect.New(), bun.WithDiscardUnknownColumns())
 
 	var (
 		machineParser     ledgercontroller.NumscriptParser = ledgercontroller.NewDefaultNumscriptParser()
